@@ -13,8 +13,8 @@ pkg=$(grep -m1 '^package ' mut${n}_demo_test.go.txt | awk '{print $2}')
 dir=.
 case $pkg in helpers) dir=internal/helpers;; queues) dir=internal/queues;; linkedlist) dir=internal/linkedlist;; pool) dir=internal/pool;; linkedbuffer) dir=internal/linkedbuffer;; esac
 cp mut${n}_demo_test.go.txt $dir/zz_demo_test.go
-echo "== demo WITH the change"; (cd $dir && timeout 600 go test -count=1 -run 'Demo|Mut|demo' . 2>&1 | tail -5)
+echo "== demo WITH the change"; (cd $dir && timeout 600 go test ${RACE:+-race} -count=1 -run 'Demo|Mut|demo' . 2>&1 | tail -5)
 git checkout -q -- .
-echo "== demo WITHOUT the change"; (cd $dir && timeout 600 go test -count=1 -run 'Demo|Mut|demo' . 2>&1 | tail -3)
+echo "== demo WITHOUT the change"; (cd $dir && timeout 600 go test ${RACE:+-race} -count=1 -run 'Demo|Mut|demo' . 2>&1 | tail -3)
 rm -f $dir/zz_demo_test.go
 git status --short | grep -v "mut[0-9]" | head
